@@ -37,6 +37,112 @@ def root_field(e):
     return e is not None and e['k'] == 'MemberExpr' and e['n'] == 'root_'
 
 
+def is_zero(unit, e):
+    e = strip(e)
+    if e is None:
+        return False
+    if e.get('v') == 0 and e['k'] in ('IntegerLiteral', 'CXXBoolLiteralExpr'):
+        return True
+    if e['k'] in ('CXXNullPtrLiteralExpr', 'GNUNullExpr'):
+        return True
+    if e['k'] in ('CXXConstructExpr', 'CXXFunctionalCastExpr', 'CXXTemporaryObjectExpr') and len(e.get('args') or e.get('ch') or []) == 1:
+        return is_zero(unit, (e.get('args') or e.get('ch'))[0])
+    return unit.text(e, 0).strip() in ('0', 'nullptr', 'NULL')
+
+
+def root_write(n):
+    """(base node or None for this, rhs) when n assigns a root_ field"""
+    if n['k'] in ('BinaryOperator', 'CXXOperatorCallExpr') and n.get('op') == '=':
+        ops = n.get('ch') if n['k'] == 'BinaryOperator' else n.get('args')
+        l = strip(ops[0]) if ops else None
+        if root_field(l):
+            b = l.get('ch') or [l.get('obj')]
+            bb = strip(b[0]) if b and is_node(b[0]) else None
+            return (None if bb is None or bb['k'] == 'CXXThisExpr' else bb), ops[1]
+    return None
+
+
+def move_paths(unit, fn, cfg, pd):
+    """ownership simulation of a move assignment along every acyclic path; returns a list of (message, node)"""
+    problems = []
+    seen_msgs = set()
+
+    def events(n):
+        if n['k'] in ('CallExpr', 'CXXMemberCallExpr'):
+            cn = cname(n)
+            if cn == 'deleteMTBDD':
+                o = strip(n.get('obj')) if n.get('obj') else None
+                return 'D' if o is None or o['k'] == 'CXXThisExpr' else None
+            if cn == 'IncrementRefCnt' and n.get('args') and root_field(strip(n['args'][0])):
+                return 'I'
+            if cn == 'recursivelyDeleteMTBDDNode' and n.get('args') and not root_field(strip(n['args'][0])):
+                return 'R'
+            if cn == 'swap' and any(root_field(strip(a)) for a in n.get('args') or []):
+                return 'W'
+        w = root_write(n)
+        if w is not None:
+            base, rhs = w
+            if base is None:
+                return 'S'
+            if base['k'] == 'DeclRefExpr' and base.get('d') == pd and is_zero(unit, rhs):
+                return 'T'
+            return 'X'
+        return None
+
+    def finish(st, node):
+        this_owned, floating, reseated, swapped = st
+        if not this_owned and floating > 0 and reseated:
+            floating -= 1
+            this_owned = True
+        msg = None
+        if floating > 0:
+            msg = 'the reference detached from the source (its root_ is set to null) is neither adopted by this object nor released on a path to the return: the node it counted can never be freed'
+        elif not this_owned:
+            msg = 'on a path to the return this object ends up pointing to a root it holds no reference on'
+        if msg and msg not in seen_msgs:
+            seen_msgs.add(msg)
+            problems.append((msg, node))
+
+    def go(b, st, visits):
+        if visits.get(b, 0) >= 2:
+            return
+        visits = dict(visits)
+        visits[b] = visits.get(b, 0) + 1
+        this_owned, floating, reseated, swapped = st
+        for n in cfg.elems(b):
+            if n is None:
+                continue
+            if n['k'] == 'ReturnStmt':
+                finish((this_owned, floating, reseated, swapped), n)
+                return
+            ev = events(n)
+            if ev == 'D':
+                this_owned = False
+            elif ev == 'S':
+                if this_owned and not swapped:
+                    m = 'root_ is overwritten on a path that did not release the old root: its nodes leak'
+                    if m not in seen_msgs:
+                        seen_msgs.add(m)
+                        problems.append((m, n))
+                this_owned = False
+                reseated = True
+            elif ev == 'T':
+                floating += 1
+            elif ev == 'I':
+                this_owned = True
+            elif ev == 'R':
+                floating -= 1
+            elif ev == 'W':
+                swapped = True
+        if b == cfg.exit:
+            finish((this_owned, floating, reseated, swapped), None)
+            return
+        for s_ in cfg.succ[b]:
+            go(s_, (this_owned, floating, reseated, swapped), visits)
+    go(cfg.entry, (True, 0, False, False), {})
+    return problems
+
+
 def run(unit, em):
     for fn in unit.functions:
         if fn.body is None:
@@ -126,7 +232,20 @@ def run(unit, em):
         if fk == 'ctor' and len(fn.params) == 1:
             # copy constructor / value constructor: root_ initialised from a borrowed value -> must increment
             inits = [i for i in fn.d.get('inits', []) if i.get('n') == 'root_']
-            if inits:
+            if inits and unit.tname(fn.params[0]['t']).rstrip().endswith('&&') and 'OndriksMTBDD' in unit.tname(fn.params[0]['t']):
+                pd2 = fn.params[0]['d']
+                def detaches(x, pd2=pd2):
+                    w = root_write(x)
+                    return w is not None and w[0] is not None and w[0]['k'] == 'DeclRefExpr' and w[0].get('d') == pd2 and is_zero(unit, w[1])
+                okd, _ = must_pass_through(cfg, (cfg.entry, 0), None, detaches, start_after=False)
+                oki, _ = must_pass_through(cfg, (cfg.entry, 0), None, lambda x: is_incr_of(x, root_field), start_after=False)
+                if okd and oki:
+                    em.violation(fn, 'OndriksMTBDD move constructor', 'takes over the reference of the source and increments it as well: one reference too many, the nodes leak', 'R2')
+                elif okd or oki:
+                    em.ok(fn, 'OndriksMTBDD move constructor', 'takes over the reference of the source (source root set to null) on every path' if okd else 'increments root_ on every path', 'R2')
+                else:
+                    em.violation(fn, 'OndriksMTBDD move constructor', 'the new handle shares the root of the source without taking a reference and without detaching the source: the node is released twice', 'R2')
+            elif inits:
                 ok, _ = must_pass_through(cfg, (cfg.entry, 0), None, lambda x: is_incr_of(x, root_field), start_after=False)
                 what = 'copy constructor' if unit.tname(fn.params[0]['t']).startswith('const VATA::MTBDDPkg::OndriksMTBDD') else 'value constructor'
                 if ok:
@@ -134,7 +253,19 @@ def run(unit, em):
                 else:
                     em.violation(fn, 'OndriksMTBDD %s' % what, 'the new handle does not take a reference on its root on every path: the shared node is released while this MTBDD still uses it', 'R2')
         # ---- R3 operator=
-        if name == 'operator=':
+        if name == 'operator=' and len(fn.params) == 1 and unit.tname(fn.params[0]['t']).rstrip().endswith('&&'):
+            probs = move_paths(unit, fn, cfg, fn.params[0]['d'])
+            has_release = any(c_['k'] in ('CallExpr', 'CXXMemberCallExpr') and cname(c_) == 'recursivelyDeleteMTBDDNode' for c_ in fn.calls())
+            if probs:
+                for msg, node in probs:
+                    if has_release and 'detached' in msg:
+                        # the surplus reference is released on other paths: whether the remaining path is the null-root case is a value question
+                        em.unknown(node or fn, 'operator= (move): reference balance', 'a path without adoption or release exists next to paths that release the detached reference; not decided whether it is the null-root case', 'R3m')
+                    else:
+                        em.violation(node or fn, 'operator= (move): reference balance', msg, 'R3m')
+            else:
+                em.ok(fn, 'operator= (move): reference balance', 'on every path the old root is released before it is overwritten and the reference taken over from the source is adopted or released', 'R3m')
+        elif name == 'operator=':
             dels = [c for c in fn.calls() if cname(c) == 'deleteMTBDD']
             reseat = [n for n in fn.walk() if (n['k'] == 'BinaryOperator' and n.get('op') == '=' and root_field(strip(n['ch'][0]))) or
                       (n['k'] == 'CXXOperatorCallExpr' and n.get('op') == '=' and n.get('args') and root_field(strip(n['args'][0])))]
@@ -219,24 +350,66 @@ def run(unit, em):
         if name == 'disposeOfInternalNode':
             dele = [c for c in fn.calls() if cname(c) == 'DeleteInternalNode']
             er = [c for c in fn.calls() if c['k'] == 'CXXMemberCallExpr' and method_name(c) == 'erase' and 'internalCache_' in unit.text(c.get('obj'), 0)]
-            rel = {'Low': [], 'High': []}
-            for c in fn.calls():
-                if cname(c) == 'recursivelyDeleteMTBDDNode' and c.get('args'):
-                    a = strip(c['args'][0])
-                    if a is not None and a['k'] == 'CallExpr':
-                        for side in rel:
-                            if cname(a) == 'Get%sFromInternal' % side:
-                                rel[side].append(c)
+            DEFER = ('insert', 'push_back', 'push', 'emplace', 'emplace_back', 'push_front')
+            vt6 = var_table(fn)
+
+            def uses_of(d, scope):
+                # (kind, call, container type) for every call in scope that takes the variable d
+                out = []
+                for c in walk(scope):
+                    if c['k'] in ('CallExpr', 'CXXMemberCallExpr') and any((strip(a) or {}).get('d') == d and (strip(a) or {}).get('k') == 'DeclRefExpr' for a in c.get('args') or []):
+                        if cname(c) == 'recursivelyDeleteMTBDDNode':
+                            out.append(('release', c, None))
+                        elif c['k'] == 'CXXMemberCallExpr' and method_name(c) in DEFER:
+                            out.append(('defer', c, unit.ty(strip(c.get('obj')) or c)))
+                return out
             for side in ('Low', 'High'):
                 nm = 'disposeOfInternalNode: release %s child' % side.lower()
-                if len(rel[side]) == 1:
-                    okb = dele and must_pass_through(cfg, (cfg.entry, 0), lambda x: x is dele[0], lambda x: x is rel[side][0], start_after=False)[0]
+                direct, via = [], []          # direct releases / (scope, var) hand-overs
+                for g in fn.calls():
+                    if cname(g) != 'Get%sFromInternal' % side:
+                        continue
+                    par = g.get('_p')
+                    while par is not None and (par['k'] in ('ImplicitCastExpr', 'MaterializeTemporaryExpr', 'ParenExpr', 'ExprWithCleanups', 'CXXBindTemporaryExpr') or
+                                               (par['k'] == 'CXXConstructExpr' and (par.get('q') or '').endswith('MTBDDNodePtr'))):
+                        par = par.get('_p')
+                    if par is not None and par['k'] == 'CallExpr' and cname(par) == 'recursivelyDeleteMTBDDNode':
+                        direct.append(par)
+                        continue
+                    if par is not None and par['k'] == 'CXXMemberCallExpr' and method_name(par) in DEFER:
+                        via.append(('defer', par, unit.ty(strip(par.get('obj')) or par)))
+                        continue
+                    for lp in fn.walk():
+                        if lp['k'] == 'CXXForRangeStmt' and is_node(lp.get('range')) and any(x is g for x in walk(lp['range'])):
+                            us = uses_of(lp['var']['d'], lp['body'])
+                            first = next((m for m in walk(lp['body']) if m is not lp['body'] and cfg.locate(m) is not None), None)
+                            inc_ids = {id(x) for x in walk(lp['inc'])} if is_node(lp.get('inc')) else set()
+                            use_ids = {id(u[1]) for u in us}
+                            if first is None or not inc_ids or not must_pass_through(cfg, cfg.locate(first), lambda x: id(x) in inc_ids, lambda x: id(x) in use_ids, start_after=False)[0]:
+                                via.append(('skip', lp, None))
+                            via.extend(us)
+                    for d6, v6 in vt6.items():
+                        if v6['kind'] == 'local' and is_node(v6['decl'].get('init')) and any(x is g for x in walk(v6['decl']['init'])) and 'InternalAddress' not in unit.ty(v6['decl']):
+                            via.extend(uses_of(d6, fn.body))
+                dedup = [v for v in via if v[0] == 'defer' and ('set<' in (v[2] or '') or 'map<' in (v[2] or ''))]
+                if len(direct) == 1 and not via:
+                    okb = dele and must_pass_through(cfg, (cfg.entry, 0), lambda x: x is dele[0], lambda x: x is direct[0], start_after=False)[0]
                     if okb:
-                        em.ok(rel[side][0], nm, 'released exactly once, before the node is deleted', 'R6')
+                        em.ok(direct[0], nm, 'released exactly once, before the node is deleted', 'R6')
                     else:
-                        em.violation(rel[side][0], nm, 'the child is read after DeleteInternalNode (use after free) or not on every path', 'R6')
+                        em.violation(direct[0], nm, 'the child is read after DeleteInternalNode (use after free) or not on every path', 'R6')
+                elif dedup:
+                    em.violation(dedup[0][1], nm, 'the reference on the %s child is handed to a de-duplicating container (%s): a node that is scheduled again while still pending is decremented once for two lost references, so it and its subgraph are never freed' % (
+                        side.lower(), (dedup[0][2] or '')[:40]), 'R6')
+                elif any(v[0] == 'skip' for v in via):
+                    em.violation(fn, nm, 'the %s child is neither released nor handed to a worklist on every path through the loop over the children' % side.lower(), 'R6')
+                elif via and not direct:
+                    if any(v[0] == 'defer' for v in via):
+                        em.unknown(via[0][1], nm, 'the release of the %s child is deferred to a worklist; that the worklist is drained with one decrement per entry is not analysed' % side.lower(), 'R6')
+                    else:
+                        em.ok(via[0][1], nm, 'released once through a local / loop variable', 'R6')
                 else:
-                    em.violation(fn, nm, 'the %s child is released %d times (must be exactly once)' % (side.lower(), len(rel[side])), 'R6')
+                    em.violation(fn, nm, 'the %s child is released %d times (must be exactly once)' % (side.lower(), len(direct) + len([v for v in via if v[0] == 'release'])), 'R6')
             if er and dele and must_pass_through(cfg, (cfg.entry, 0), lambda x: x is dele[0], lambda x: x is er[0], start_after=False)[0]:
                 em.ok(er[0], 'disposeOfInternalNode: table entry', 'erased before the node is deleted', 'R6')
             else:
